@@ -187,5 +187,7 @@ NoSwallowedPing == (lpc = "drain_after" /\ drained > 0) => lval >= 2
 Quiescent == finished => /\ (total = 0 <=> ~registered)
                          /\ (registered => counter = 0)
 SInv_C03 == WakeKept /\ NoSpuriousCallback /\ NoSwallowedPing /\ markers <= 1 /\ Quiescent
+\* end-to-end form (used to obtain *complete* counterexample schedules from the variants)
+EndInv == finished => (Inv_C03 /\ Quiescent)
 Done == finished
 =============================================================================
